@@ -38,7 +38,11 @@ type tlcProg struct {
 	Mem    []int   `json:"mem"`
 	Status string  `json:"status"`
 	Ret    []int   `json:"ret"`
+	Skip   int     `json:"skip"` // steps of the program's prefix that are not recorded one by one (Sync event instead)
 }
+
+// steps of the next program that are replaced by one Sync event
+var skipSteps int
 
 // call data of the matrix programs (37 bytes: not a multiple of the word size)
 var matrixData = func() []byte {
@@ -100,6 +104,7 @@ func runProgram(src string, code, data []byte) (status string, ret []byte) {
 		"data": eu.ByteInts(data), "depth": 1})
 	rec.BeginRun(runID)
 	rec.Cancel = evm.Cancel
+	rec.SkipSteps = skipSteps
 	var err error
 	func() {
 		defer func() {
@@ -870,7 +875,9 @@ func runScript(path string) {
 		vutil.Fatalf("parse script: %v", err)
 	}
 	for _, p := range progs {
+		skipSteps = p.Skip
 		status, ret := runProgram("tlc", toBytes(p.Code), toBytes(p.Data))
+		skipSteps = 0
 		obs := status
 		if status == "ok" {
 			// tell STOP from RETURN the way the reference does: by the halting instruction
